@@ -230,6 +230,11 @@ def gen_normal_msg(rng, case, st):
     kinds = ["pixfmt", "encodings", "fur", "fur", "key", "ptr", "cut", "cut", "chat", "scale", "scale", "palm", "xvp", "dsz",
              "sw", "input", "ft", "fixcmap", "unknown"]
     k = rng.choice(kinds)
+    if st.get("extclip") and rng.random() < 0.35:
+        k = "cut"                      # stay on the extended clipboard while it is enabled
+    if k == "encodings" and cfg["utf8"] and rng.random() < 0.35:
+        st["extclip"] = True
+        return m_encodings([ENC[rng.choice(MODEL_ENCS)], ENC["extclip"]])
     if k == "pixfmt":
         r = rng.random()
         if r < 0.5:
@@ -251,7 +256,7 @@ def gen_normal_msg(rng, case, st):
         encs = [rng.choice(pool) for _ in range(n)]
         if rng.random() < 0.7:
             encs.insert(0, ENC[rng.choice(PIX_ENCS if rng.random() < 0.3 else MODEL_ENCS)])
-        st["extclip"] = st.get("extclip", False) or (ENC["extclip"] in encs and cfg["utf8"])
+        st["extclip"] = bool(ENC["extclip"] in encs and cfg["utf8"])     # every SetEncodings resets the capability
         return m_encodings(encs)
     if k == "fur":
         r = rng.random()
@@ -844,8 +849,8 @@ def gen_cases(ctx, variant):
             (case_scale_update, 160 if quick else 2500), (case_clip, 80 if quick else 1200),
             (case_garbage, 100 if quick else 1500), (case_unmodelled, 40 if quick else 600),
             (case_ws, 90 if quick else 1200), (case_encupd, 160 if quick else 2500)]
-    sweep_vals = [0, 1, 2, 3, 65534, 65535] if quick else [0, 1, 2, 3, 4, 5, 255, 256, 32767, 32768, 65531, 65533, 65534, 65535]
-    for (W, H) in ([(3, 2)] if quick else [(3, 2), (2, 3), (1, 1), (4, 4)]):
+    sweep_vals = [0, 1, 2, 3, 65534, 65535] if quick else [0, 1, 2, 3, 4, 255, 32768, 65533, 65534, 65535]
+    for (W, H) in ([(3, 2)] if quick else [(3, 2), (2, 3), (4, 4)]):
         cases.append(case_clip_sweep(rng, k, variant, sweep_vals, W, H).render())
         k += 1
     for fn, n in plan:
